@@ -101,6 +101,16 @@ var gapFillers = []struct{ name, text string }{
 	{"line-para-sep", "\u2028\u2029"}, {"nnbsp-mmsp-ideographic", "\u202f\u205f\u3000"},
 }
 
+// fillers longer than the lexer's 4096-byte read buffer (one sampled gap per program gets them)
+var longGapFillers = []struct{ name, text string }{
+	{"long-linecomment", " -- " + strings.Repeat("c", 4093) + "\n"},
+	{"long-linecomment-words", " -- " + strings.Repeat("was 'b' or ", 800) + "\n"},
+	{"long-blockcomment", "--(" + strings.Repeat("c ", 2100) + ")--"},
+	{"long-blanks", strings.Repeat(" ", 4200)},
+	{"long-newlines", strings.Repeat("\n", 4100)},
+	{"long-mixed", strings.Repeat("\t \n", 1400) + "--(x)--" + strings.Repeat(" -- y\n", 700)},
+}
+
 type tokSpan struct {
 	name       string
 	start, end int
@@ -243,6 +253,15 @@ func genC15(r *rand.Rand, tier string, st *Stats) []Case {
 		}
 		for _, b := range pick {
 			for _, f := range gapFillers {
+				if strings.HasPrefix(f.text, "-") && needsSeparator(p.src, b) {
+					continue
+				}
+				add(p, p.src[:b]+f.text+p.src[b:], f.name)
+			}
+		}
+		if len(pick) > 0 && (tier == "thorough" || st.Counts["programs"]%3 == 0) {
+			b := pick[r.Intn(len(pick))]
+			for _, f := range longGapFillers {
 				if strings.HasPrefix(f.text, "-") && needsSeparator(p.src, b) {
 					continue
 				}
